@@ -5,7 +5,9 @@
 EXTENDS PaymentStore
 
 B(x) == IF x THEN 1 ELSE 0
-Desc(e) == D(e.kind, e.addr, e.tot, e.amt)
+\* the route handed to RegisterAttempt (the executor builds the real
+\* route.Route from exactly these fields)
+Desc(e) == e.rt
 \* calls that return the payment
 Returning == {"Register", "Settle", "FailAttempt", "Fail", "Fetch"}
 
@@ -16,11 +18,16 @@ ProjOk(r, p) ==
        /\ r.st = Status(p)
        /\ r.val = Value
        /\ r.fr = p.fr
-       /\ \A i \in Ids : r.att[i] = p.att[i].st /\ r.amt[i] = p.att[i].amt
+       /\ \A i \in Ids : r.att[i] = p.att[i].st /\ r.amt[i] = RAmt(p.att[i].img)
        /\ r.extra = 0
        /\ r.rem = Value - Sent(p)
        /\ r.nin = NumInflight(p)
        /\ r.hs = B(HasSettled(p))
        /\ r.pf = B(PaymentFailed(p))
+
+\* ... and the route of every attempt, read back field by field from the
+\* returned HTLCAttempt.Route (r.rt[i] = route of attempt id i, NoRoute if
+\* there is none): it must be the stored image, i.e. the registered route
+RouteOk(r, p) == \A i \in Ids : r.rt[i] = (IF p.ex THEN p.att[i].img ELSE NoRoute)
 
 =============================================================================
